@@ -30,6 +30,8 @@ TRUSTED = [
     "hypotheses of the phase-level theorems",
     "float rounding of the FFT is not modelled: comparisons use 1e-9*scale (float64) and 1e-4*scale (float32)",
     "harness/pC07.py generators, canonicaliser and oracle; NumPy as arithmetic oracle (np.roll, cos/sin)",
+    "C14's model of find_peak/pick_maximum (coq/C14/Model.v pick_peak) is imported for the peak trace of shift_waveform; "
+    "np.nanmedian modelled as twice the median of integers (no NaN)",
     "scipy.signal.correlate(a, b, 'same')[i] = sum_l a[l + i - floor(N/2)] b[l] (model xcorr_same_at), compared exactly "
     "with SciPy on integer signals of every length 2..64 on each run",
     "extraction (Require Extraction, ExtrOcamlBasic only; Z, positive, Q kept inductive), harness/driver.ml, "
